@@ -188,6 +188,11 @@ def _nan_grouped_op(group_idx, array, func, fillna, *args, **kwargs):
     if fillna in (np.inf, -np.inf):
         allnangroups = result == fillna
         if allnangroups.any():
+            # +-inf can also be the true extreme of a group: only groups without any valid value are all-NaN
+            nvalid = nanlen(
+                group_idx, array, axis=kwargs.get("axis", -1), size=kwargs.get("size", None), fill_value=0
+            )
+            allnangroups &= nvalid == 0
             result[allnangroups] = kwargs["fill_value"]
     return result
 
